@@ -50,7 +50,7 @@ def build_tree(sb, distinct):
         "srv/...": b"INSIDE srv/...", "srv/..a": b"INSIDE srv/..a", "srv/etc/passwd": b"INSIDE srv/etc/passwd", "srv/srv2/a.txt": b"INSIDE srv/srv2/a.txt",
     }
     if distinct:
-        files.update({"rcv/existing.txt": b"INSIDE rcv/existing.txt", "rcv/a.txt": b"INSIDE rcv/a.txt", "rcv/sub/keep.txt": b"INSIDE rcv/sub/keep.txt"})
+        files.update({"srv_up/existing.txt": b"INSIDE srv_up/existing.txt", "srv_up/a.txt": b"INSIDE srv_up/a.txt", "srv_up/sub/keep.txt": b"INSIDE srv_up/sub/keep.txt"})
     for rel, c in files.items():
         write(os.path.join(sb["root"], rel), c)
     return files
@@ -171,12 +171,25 @@ def run_config(v, ctx, tftpd, thorough, names, cfgname, dist, ow, rng):
     classes = {}
     strace_seen = 0
     sb = ctx.sandbox("c03", distinct=dist)
+    if dist:
+        # the receive directory shares a string prefix with the send directory (srv / srv_up)
+        sb["rcv"] = os.path.join(sb["root"], "srv_up")
+        os.makedirs(sb["rcv"], exist_ok=True)
     files = build_tree(sb, dist)
     by_content = {c: rel for rel, c in files.items()}
     initial = N.snapshot(sb["root"])
     send_dir, recv_dir = sb["srv"], sb["rcv"]
     # extra names that need the sandbox location
     extra = [os.path.join(sb["root"], rel) for rel in ("outside/secret.txt", "secret.txt", "srv2/a.txt", "srv_/a.txt", "srv/a.txt", "srv/../secret.txt")]
+    # absolute paths of real files behind every style of leading separators (a name that stays absolute after
+    # normalisation would make Path::join discard the served directory)
+    absolute = [os.path.join(sb["root"], rel) for rel in ("outside/secret.txt", "secret.txt", "srv2/a.txt", "srv_/a.txt", "srv/a.txt", "srv_up/a.txt", "srv_up/new.txt", "srv_/new.txt", "srv2/new.txt", "newfile.txt")]
+    for ap in absolute:
+        for lead in ("//", "///", "\\\\", "/\\", "\\/", "/./", "/.//", "//./", "\\", "/ /"):
+            extra.append(lead + ap.lstrip("/"))
+            extra.append(lead + ap.lstrip("/").replace("/", "\\"))
+        extra.append(ap.replace("/", "\\"))
+        extra.append(ap.replace("/", "//"))
     extra += ["../srv2/a.txt", "..\\srv2\\a.txt", "sub/../../secret.txt", "sub\\..\\..\\secret.txt", "../srv/a.txt", "./../secret.txt", "a.txt/../../secret.txt", "....//secret.txt", "..././secret.txt",
               "sub/..", "sub/../a.txt", "%2e%2e/secret.txt", "..%2fsecret.txt", "\u2025/secret.txt", "..\u2215secret.txt", ". ./secret.txt", "../", "..\\", "/..", "\\..", "sub//..//..//secret.txt", "~/secret.txt"]
     # seeded random / mutated names up to the request limit
